@@ -88,23 +88,27 @@ theorem exit0_filter_length_mono {α} (l : List α) (p q : α → Bool) (h : ∀
       · rw [if_neg hq]
         exact ih
 
-theorem exit0_paths (C : exit0_Ctx) (hG : exit0_Good C) (hm : C.env.stdinMode = false) (input : Bytes) (b : ConfBlock)
+/-- The loop over the paths of a block; besides the invariant: the directories it walked exist at the end
+(each was opened, and no call of a maildir-mode run creates or removes a directory). -/
+theorem exit0_paths' (C : exit0_Ctx) (hG : exit0_Good C) (hm : C.env.stdinMode = false) (input : Bytes) (b : ConfBlock)
     (hstep : exit0_StepOK C.env C.orc b.expr) (ps : List Bytes) :
     ∀ (st : MainSt) (w : World) (bb : Bool) (pre rest : List (Bytes × Expr)),
       C.dirs = pre ++ (exit0_pathDirs b.expr ps ++ rest) → exit0_Inv C (exit0_pathDirs b.expr ps ++ rest) none st w →
       wpS (mainP.blocks.paths C.env C.orc input b ps st)
-        (fun _ st' w' => st'.error = false → exit0_Inv C rest none st' w') bb w := by
+        (fun _ st' w' => st'.error = false → exit0_Inv C rest none st' w' ∧
+          ∀ D ∈ (exit0_pathDirs b.expr ps).map (·.1), (w'.dir D).isSome = true) bb w := by
   induction ps with
   | nil =>
     intro st w bb pre rest _ hinv
     rw [Own.paths_nil]
     intro _
-    simpa [exit0_pathDirs] using hinv
+    exact ⟨by simpa [exit0_pathDirs] using hinv, by simp [exit0_pathDirs]⟩
   | cons p more ih =>
     intro st w bb pre rest hs hinv
     have sticky : ∀ (st1 : MainSt) (b1 : Bool) (w1 : World), st1.error = true →
         wpS (mainP.blocks.paths C.env C.orc input b more st1)
-          (fun _ st' w' => st'.error = false → exit0_Inv C rest none st' w') b1 w1 := by
+          (fun _ st' w' => st'.error = false → exit0_Inv C rest none st' w' ∧
+            ∀ D ∈ (exit0_pathDirs b.expr (p :: more)).map (·.1), (w'.dir D).isSome = true) b1 w1 := by
       intro st1 b1 w1 h1
       exact wpS_mono (exit0_wpS_all (exit0_paths_sticky C.env C.orc input b hm more st1 h1) b1 w1)
         (fun _ r _ h he => by rw [h] at he; cases he)
@@ -112,7 +116,7 @@ theorem exit0_paths (C : exit0_Ctx) (hG : exit0_Good C) (hm : C.env.stdinMode = 
     by_cases hsk : skipPath C.env p = true
     · simp only [hsk, if_true]
       have hsp : isStdinPath p = true := by simpa [skipPath, hm] using hsk
-      rw [exit0_pathDirs_skip _ _ _ hsp] at hs hinv
+      rw [exit0_pathDirs_skip _ _ _ hsp] at hs hinv ⊢
       exact ih st w bb pre rest hs hinv
     · simp only [hsk, Bool.false_eq_true, if_false]
       have hsp : isStdinPath p = false := by simpa [skipPath, hm] using hsk
@@ -158,56 +162,103 @@ theorem exit0_paths (C : exit0_Ctx) (hG : exit0_Good C) (hm : C.env.stdinMode = 
             rw [World.length_sortedNames]
             simp only [if_true, walkFuel]
             omega
-          refine wpS_bind_mono (exit0_walk C hG b.expr hstep (walkFuel st root np) _ st w3 b2 pre _ (sortedNames es) h3 rfl rfl
-            ⟨?_, hnp⟩ ⟨none, 0, hobj3⟩ hrem3 hs (fun _ => ⟨_, rfl⟩) hrokO hinvO hfu) ?_
+          refine wpS_bind_mono (World.wpS_and (exit0_walk' C hG b.expr hstep (walkFuel st root np) _ st w3 b2 pre _ (sortedNames es) h3
+            rfl rfl ⟨?_, hnp⟩ ⟨none, 0, hobj3⟩ hrem3 hs (fun _ => ⟨_, rfl⟩) hrokO hinvO hfu)
+            (dirsSame_walk C.env C.orc b.expr (walkFuel st root np) _ st b2 w3)) ?_
           · intro d' hd'
             cases hd'
             simp [World.dirPath, hobj3]
-          · rintro b4 ⟨st4, md4⟩ w4 hpost
-            dsimp only at hpost ⊢
+          · rintro b4 ⟨st4, md4⟩ w4 ⟨hpost, hsame4⟩
+            dsimp only at hpost hsame4 ⊢
             by_cases herr4 : st4.error = true
             · refine wpS_bind_mono (exit0_wpS_triv) fun _ _ _ _ => sticky _ _ _ herr4
-            · have hinv4 := hpost (by simpa using herr4)
-              simp only [if_true, List.tail_cons] at hinv4
+            · obtain ⟨hinv4, hcur4⟩ := hpost (by simpa using herr4)
+              simp only [if_true] at hinv4
+              have hnew4 : (w4.dir np).isSome = true := by rw [hsame4 np, hdir3]; rfl
+              have hcur4' : (w4.dir (root ++ [47] ++ subdirName .cur)).isSome = true := hcur4 rfl
+              have fin : ∀ (w5 : World) (b5 : Bool), DirsSame w4 w5 →
+                  exit0_Inv C (exit0_pathDirs b.expr more ++ rest) none st4 w5 →
+                  wpS (mainP.blocks.paths C.env C.orc input b more st4)
+                    (fun _ st' w' => st'.error = false → exit0_Inv C rest none st' w' ∧
+                      ∀ D ∈ (exit0_pathDirs b.expr (root :: more)).map (·.1), (w'.dir D).isSome = true) b5 w5 := by
+                intro w5 b5 hs5 hinv5
+                refine wpS_mono (World.wpS_and (ih st4 w5 b5 (pre ++ [(np, b.expr), (root ++ [47] ++ subdirName .cur, b.expr)]) rest
+                  (by rw [hs]; simp) hinv5) (dirsSame_paths C.env C.orc input b hm more st4 b5 w5)) ?_
+                rintro _ st' w' ⟨hp, hsm⟩ he
+                obtain ⟨hI, hD⟩ := hp he
+                refine ⟨hI, ?_⟩
+                intro D hD'
+                rw [exit0_pathDirs_cons _ _ _ hsp, ← hnp'] at hD'
+                simp only [List.map_cons, List.mem_cons] at hD'
+                rcases hD' with rfl | rfl | hD'
+                · rw [hsm, hs5]; exact hnew4
+                · rw [hsm, hs5]; exact hcur4'
+                · exact hD D hD'
               unfold maildirClose
               split
               · rename_i d4 _
                 simp only [bind_eq, pure_eq, call_bind, call_bind', ret_bind]
                 refine wpS_call_any fun r5 b5 => ?_
                 have hinv5 := hinv4.step (.closedir d4) r5 rfl (fun _ => trivial)
-                exact ih st4 _ b5 (pre ++ [(np, b.expr), (root ++ [47] ++ subdirName .cur, b.expr)]) rest
-                  (by rw [hs]; simp) hinv5
+                exact fin _ b5 (dirsSame_step w4 (.closedir d4) r5 True.intro) hinv5
               · simp only [pure_eq, ret_bind]
-                exact ih st4 w4 b4 (pre ++ [(np, b.expr), (root ++ [47] ++ subdirName .cur, b.expr)]) rest
-                  (by rw [hs]; simp) hinv4
+                exact fin w4 b4 (DirsSame.refl w4) hinv4
       · exact sticky _ _ _ rfl
 
+theorem exit0_paths (C : exit0_Ctx) (hG : exit0_Good C) (hm : C.env.stdinMode = false) (input : Bytes) (b : ConfBlock)
+    (hstep : exit0_StepOK C.env C.orc b.expr) (ps : List Bytes) :
+    ∀ (st : MainSt) (w : World) (bb : Bool) (pre rest : List (Bytes × Expr)),
+      C.dirs = pre ++ (exit0_pathDirs b.expr ps ++ rest) → exit0_Inv C (exit0_pathDirs b.expr ps ++ rest) none st w →
+      wpS (mainP.blocks.paths C.env C.orc input b ps st)
+        (fun _ st' w' => st'.error = false → exit0_Inv C rest none st' w') bb w := by
+  intro st w bb pre rest hs hinv
+  exact wpS_mono (exit0_paths' C hG hm input b hstep ps st w bb pre rest hs hinv) fun _ _ _ h he => (h he).1
+
 /-! ## the loop over the blocks, and `main` -/
+
+theorem exit0_blocks' (C : exit0_Ctx) (hG : exit0_Good C) (hm : C.env.stdinMode = false) (input : Bytes) (bs : List ConfBlock)
+    (hstep : ∀ b ∈ bs, exit0_StepOK C.env C.orc b.expr) :
+    ∀ (st : MainSt) (w : World) (bb : Bool) (pre : List (Bytes × Expr)),
+      C.dirs = pre ++ exit0_dirsOf bs → exit0_Inv C (exit0_dirsOf bs) none st w →
+      wpS (mainP.blocks C.env C.orc input bs st)
+        (fun _ st' w' => st'.error = false → exit0_Inv C [] none st' w' ∧
+          ∀ D ∈ (exit0_dirsOf bs).map (·.1), (w'.dir D).isSome = true) bb w := by
+  induction bs with
+  | nil =>
+    intro st w bb pre _ hinv
+    rw [Own.blocks_nil]
+    intro _
+    exact ⟨by simpa [exit0_dirsOf] using hinv, by simp [exit0_dirsOf]⟩
+  | cons b rest ih =>
+    intro st w bb pre hs hinv
+    rw [Own.blocks_cons]
+    have hd : exit0_dirsOf (b :: rest) = exit0_pathDirs b.expr b.paths ++ exit0_dirsOf rest := by
+      simp [exit0_dirsOf]
+    rw [hd] at hs hinv ⊢
+    refine wpS_bind_mono (exit0_paths' C hG hm input b (hstep b (List.mem_cons_self ..)) b.paths st w bb pre _ hs hinv) ?_
+    intro b1 st1 w1 hpost
+    by_cases herr : st1.error = true
+    · exact wpS_mono (exit0_wpS_all (exit0_blocks_sticky C.env C.orc input hm rest st1 herr) b1 w1)
+        (fun _ r _ h he => by rw [h] at he; cases he)
+    · obtain ⟨hinv1, hD1⟩ := hpost (by simpa using herr)
+      refine wpS_mono (World.wpS_and (ih (fun b' hb' => hstep b' (List.mem_cons_of_mem _ hb')) st1 w1 b1
+        (pre ++ exit0_pathDirs b.expr b.paths) (by rw [hs]; simp) hinv1) (dirsSame_blocks C.env C.orc input hm rest st1 b1 w1)) ?_
+      rintro _ st' w' ⟨hp, hsm⟩ he
+      obtain ⟨hI, hD⟩ := hp he
+      refine ⟨hI, ?_⟩
+      intro D hD'
+      rw [List.map_append, List.mem_append] at hD'
+      rcases hD' with hD' | hD'
+      · rw [hsm]; exact hD1 D hD'
+      · exact hD D hD'
 
 theorem exit0_blocks (C : exit0_Ctx) (hG : exit0_Good C) (hm : C.env.stdinMode = false) (input : Bytes) (bs : List ConfBlock)
     (hstep : ∀ b ∈ bs, exit0_StepOK C.env C.orc b.expr) :
     ∀ (st : MainSt) (w : World) (bb : Bool) (pre : List (Bytes × Expr)),
       C.dirs = pre ++ exit0_dirsOf bs → exit0_Inv C (exit0_dirsOf bs) none st w →
       wpS (mainP.blocks C.env C.orc input bs st) (fun _ st' w' => st'.error = false → exit0_Inv C [] none st' w') bb w := by
-  induction bs with
-  | nil =>
-    intro st w bb pre _ hinv
-    rw [Own.blocks_nil]
-    intro _
-    simpa [exit0_dirsOf] using hinv
-  | cons b rest ih =>
-    intro st w bb pre hs hinv
-    rw [Own.blocks_cons]
-    have hd : exit0_dirsOf (b :: rest) = exit0_pathDirs b.expr b.paths ++ exit0_dirsOf rest := by
-      simp [exit0_dirsOf]
-    rw [hd] at hs hinv
-    refine wpS_bind_mono (exit0_paths C hG hm input b (hstep b (List.mem_cons_self ..)) b.paths st w bb pre _ hs hinv) ?_
-    intro b1 st1 w1 hpost
-    by_cases herr : st1.error = true
-    · exact wpS_mono (exit0_wpS_all (exit0_blocks_sticky C.env C.orc input hm rest st1 herr) b1 w1)
-        (fun _ r _ h he => by rw [h] at he; cases he)
-    · exact ih (fun b' hb' => hstep b' (List.mem_cons_of_mem _ hb')) st1 w1 b1 (pre ++ exit0_pathDirs b.expr b.paths)
-        (by rw [hs]; simp) (hpost (by simpa using herr))
+  intro st w bb pre hs hinv
+  exact wpS_mono (exit0_blocks' C hG hm input bs hstep st w bb pre hs hinv) fun _ _ _ h he => (h he).1
 
 /-- The invariant at the start of the run. -/
 theorem exit0_inv_init (C : exit0_Ctx) (hG : exit0_Good C) (hreg : WholeReg C.w0 C.files0) :
@@ -217,11 +268,13 @@ theorem exit0_inv_init (C : exit0_Ctx) (hG : exit0_Good C) (hreg : WholeReg C.w0
   have hp : exit0_Pend C.dirs none (D, n) := .inl (List.mem_map.2 ⟨(D, e), hmem, rfl⟩)
   exact ⟨fun _ => hc, fun hnp => absurd hp hnp⟩
 
-theorem exit0_mainP (C : exit0_Ctx) (hG : exit0_Good C) (hm : C.env.stdinMode = false) (hsyn : C.env.syntaxOnly = false)
+/-- `main`; besides the invariant: every directory the run walked exists at the end. -/
+theorem exit0_mainP' (C : exit0_Ctx) (hG : exit0_Good C) (hm : C.env.stdinMode = false) (hsyn : C.env.syntaxOnly = false)
     (confOk : Bool) (conf : List ConfBlock) (input : Bytes) (hdirs : C.dirs = exit0_dirsOf conf)
     (hstep : ∀ b ∈ conf, exit0_StepOK C.env C.orc b.expr) (hreg : WholeReg C.w0 C.files0) (b : Bool) :
     wpS (mainP C.env C.orc confOk conf C.files0 input)
-      (fun _ r w' => r.2.error = false → exit0_Inv C [] none r.2 w') b C.w0 := by
+      (fun _ r w' => r.2.error = false → exit0_Inv C [] none r.2 w' ∧
+        ∀ D ∈ (exit0_dirsOf conf).map (·.1), (w'.dir D).isSome = true) b C.w0 := by
   have hinv0 := exit0_inv_init C hG hreg
   rw [Own.mainP_eq]
   refine exit0_wpS_call_ft fun ft b1 => ?_
@@ -244,12 +297,19 @@ theorem exit0_mainP (C : exit0_Ctx) (hG : exit0_Good C) (hm : C.env.stdinMode = 
     split
     · intro h; cases h
     · simp only [hsyn, Bool.false_eq_true, if_false]
-      refine wpS_bind_mono (exit0_blocks C hG hm input conf hstep _ _ b2 [] (by simpa using hdirs) (by rw [← hdirs]; exact hinv2)) ?_
+      refine wpS_bind_mono (exit0_blocks' C hG hm input conf hstep _ _ b2 [] (by simpa using hdirs) (by rw [← hdirs]; exact hinv2)) ?_
       intro _ stf wf hpost
       exact hpost
   · rw [hr]
     intro h
     cases h
+
+theorem exit0_mainP (C : exit0_Ctx) (hG : exit0_Good C) (hm : C.env.stdinMode = false) (hsyn : C.env.syntaxOnly = false)
+    (confOk : Bool) (conf : List ConfBlock) (input : Bytes) (hdirs : C.dirs = exit0_dirsOf conf)
+    (hstep : ∀ b ∈ conf, exit0_StepOK C.env C.orc b.expr) (hreg : WholeReg C.w0 C.files0) (b : Bool) :
+    wpS (mainP C.env C.orc confOk conf C.files0 input)
+      (fun _ r w' => r.2.error = false → exit0_Inv C [] none r.2 w') b C.w0 :=
+  wpS_mono (exit0_mainP' C hG hm hsyn confOk conf input hdirs hstep hreg b) fun _ _ _ h he => (h he).1
 
 /-! ## what the invariant says at the end -/
 
